@@ -239,6 +239,71 @@ def auditContestNewSize (sqrtF : Rat → Rat) (ctype : AuditType) (hasMvr : Bool
       let s ← assertionFindSampleSize sqrtF it.a data false rate1 rate2 it.tails quantile
       pure (max acc s)) 0
 
+/-! ### `Audit.find_sample_size` over several contests (L1075-1139) -/
+
+/-- one of the two error injections of the ONEAudit branch (L1100-1105):
+`if rate: idx = np.arange(0, len(data), math.floor(1/rate)); data[idx] = asn.make_overstatement(overs)` -/
+def injectOne (data : List Rat) (rate : Option Rat) (ub : Rat) (margin : Option Rat) (overs : Rat) :
+    Except Err (List Rat) :=
+  match rate with
+  | none => .ok data                                       -- `if None`
+  | some r =>
+    if r = 0 then .ok data                                 -- `if 0`
+    else
+      let step : Int := (1 / r).floor                      -- math.floor (not int())
+      if step = 0 then .error (.nm .zerodiv)               -- np.arange(..., step=0)
+      else
+        let idx := if step < 0 then [] else arange data.length step.toNat
+        match margin with
+        | none => .error (.nm .type)                       -- None / upper_bound
+        | some m => do
+          let v ← makeOverstatement ub m overs
+          pure (assign data idx v)
+
+/-- L1096-1105: one-vote overstatements at the rate `error_rate_1`, then two-vote overstatements
+(`overs=1`) at the rate `error_rate_2`, written into the data built from all CVRs -/
+def oneauditInject (data : List Rat) (rate1 rate2 : Option Rat) (ub : Rat) (margin : Option Rat) :
+    Except Err (List Rat) := do
+  let d1 ← injectOne data rate1 ub margin (1 / 2)
+  injectOne d1 rate2 ub margin 1
+
+/-- the inner loop of `Audit.find_sample_size` for one contest, including the ONEAudit branch: here
+`Item.cvrData` is the raw `asn.mvrs_to_data(cvrs, cvrs, use_all=True)[0]` and the assumed errors are
+written in by the model -/
+def auditContestNewSizeInj (sqrtF : Rat → Rat) (ctype : AuditType) (hasMvr : Bool) (items : List Item)
+    (rate1 rate2 : Option Rat) (quantile : Rat) : Except Err Nat :=
+  items.foldlM (fun acc it =>
+    if it.proved then pure acc
+    else if hasMvr then do
+      let s ← assertionFindSampleSize sqrtF it.a (some it.mvrData) true none none it.tails quantile
+      pure (max acc s)
+    else if ctype == .oneaudit then do
+      let data ← oneauditInject it.cvrData rate1 rate2 it.a.upperBound it.a.margin
+      let s ← assertionFindSampleSize sqrtF it.a (some data) false rate1 rate2 it.tails quantile
+      pure (max acc s)
+    else do
+      let s ← assertionFindSampleSize sqrtF it.a none false rate1 rate2 it.tails quantile
+      pure (max acc s)) 0
+
+/-- a contest as `Audit.find_sample_size` sees it -/
+structure AContest where
+  ctype : AuditType                       -- con.audit_type
+  items : List Item                       -- con.assertions, in dict order
+deriving Repr, Inhabited
+
+/-- the loop over `contests.items()` (L1075-1123): the list of `con.sample_size`, in dict order; the first
+contest whose estimate raises makes the call raise -/
+def auditFindSampleSizes (sqrtF : Rat → Rat) (hasMvr : Bool) (contests : List AContest)
+    (rate1 rate2 : Option Rat) (quantile : Rat) : Except Err (List Nat) :=
+  contests.mapM (fun c => auditContestNewSizeInj sqrtF c.ctype hasMvr c.items rate1 rate2 quantile)
+
+/-- the value returned without style information (L1136-1139):
+`np.max(np.array([con.sample_size for con in contests.values()]))` (ValueError for no contest) -/
+def auditTotalNoStyle (sizes : List Nat) : Except Err Nat :=
+  match sizes with
+  | [] => .error (.nm .value)
+  | s :: rest => .ok (rest.foldl max s)
+
 /-! ### `raire/sample_estimator.py: sample_size` -/
 
 /-- `sample_size(mean, tw, tl, to, args, N, upper_bound, polling)`; `args` = (erate1, erate2, rlimit,
